@@ -181,3 +181,180 @@ static inline bool MUL_LEMMAS(I s, I x, i128 gx, i128 gy){
 #define MUL_SOUND 1
 #endif
 IBIN(i_mul, _ZNK4ikos8intervalINS_8z_numberEEmlERKS2_, ZLIM, MUL_EXACT, MUL_SOUND)
+
+/* ---------------------------------------------------------------- bound: remaining operations */
+/* division, divisor != 0 (a zero divisor is a CRAB_ERROR); finite / infinite = 0 by convention */
+//@check id=b_div fn=_ZNK4ikos5boundINS_8z_numberEEdvERKS2_ props=C08
+BBIN(b_div, _ZNK4ikos5boundINS_8z_numberEEdvERKS2_, bval(*x) != 0, b_eq(*ret, x_div(*self, *x)))
+//@check id=b_abs fn=_ZNK4ikos5boundINS_8z_numberEE3absEv props=C08
+void _ZNK4ikos5boundINS_8z_numberEE3absEv(B *ret, B *self)
+__CPROVER_requires(FRESH(b_abs, ret, sizeof(B)) && FRESH(b_abs, self, sizeof(B)) && b_ok(*self))
+__CPROVER_assigns(*ret)
+__CPROVER_ensures(b_ok(*ret) && b_eq(*ret, b_le(mkfin(0), *self) ? *self : x_neg(*self)));
+void h_b_abs(void){ IN(B, a); B r; _ZNK4ikos5boundINS_8z_numberEE3absEv(&r, &a); REACH; }
+#define BTER(tag, fn, POSTEXPR) \
+void fn(B *ret, B *self, B *x, B *y) \
+__CPROVER_requires(FRESH(tag, ret, sizeof(B)) && BFRESH2(tag) && FRESH(tag, y, sizeof(B)) && b_ok(*self) && b_ok(*x) && b_ok(*y)) \
+__CPROVER_assigns(*ret) \
+__CPROVER_ensures(b_ok(*ret) && (POSTEXPR)); \
+void h_##tag(void){ IN(B, a); IN(B, b); IN(B, c); B r; fn(&r, &a, &b, &c); REACH; }
+//@check id=b_min3 fn=_ZN4ikos5boundINS_8z_numberEE3minERKS2_S4_S4_ props=C08
+BTER(b_min3, _ZN4ikos5boundINS_8z_numberEE3minERKS2_S4_S4_, b_eq(*ret, x_min(*self, x_min(*x, *y))))
+//@check id=b_max3 fn=_ZN4ikos5boundINS_8z_numberEE3maxERKS2_S4_S4_ props=C08
+BTER(b_max3, _ZN4ikos5boundINS_8z_numberEE3maxERKS2_S4_S4_, b_eq(*ret, x_max(*self, x_max(*x, *y))))
+#define BQUA(tag, fn, POSTEXPR) \
+void fn(B *ret, B *self, B *x, B *y, B *z) \
+__CPROVER_requires(FRESH(tag, ret, sizeof(B)) && BFRESH2(tag) && FRESH(tag, y, sizeof(B)) && FRESH(tag, z, sizeof(B)) && b_ok(*self) && b_ok(*x) && b_ok(*y) && b_ok(*z)) \
+__CPROVER_assigns(*ret) \
+__CPROVER_ensures(b_ok(*ret) && (POSTEXPR)); \
+void h_##tag(void){ IN(B, a); IN(B, b); IN(B, c); IN(B, d); B r; fn(&r, &a, &b, &c, &d); REACH; }
+//@check id=b_min4 fn=_ZN4ikos5boundINS_8z_numberEE3minERKS2_S4_S4_S4_ props=C08
+BQUA(b_min4, _ZN4ikos5boundINS_8z_numberEE3minERKS2_S4_S4_S4_, b_eq(*ret, x_min(x_min(*self, *x), x_min(*y, *z))))
+//@check id=b_max4 fn=_ZN4ikos5boundINS_8z_numberEE3maxERKS2_S4_S4_S4_ props=C08
+BQUA(b_max4, _ZN4ikos5boundINS_8z_numberEE3maxERKS2_S4_S4_S4_, b_eq(*ret, x_max(x_max(*self, *x), x_max(*y, *z))))
+/* bound(bool is_infinite, z n): an infinite bound is normalised to +1 / -1 by the sign of n */
+//@check id=b_ctor_flag fn=_ZN4ikos5boundINS_8z_numberEEC2EbS1_ props=C08
+void _ZN4ikos5boundINS_8z_numberEEC2EbS1_(B *self, unsigned char is_inf, Z *n)
+__CPROVER_requires(FRESH(b_ctor_flag, self, sizeof(B)) && FRESH(b_ctor_flag, n, sizeof(Z)) && is_inf <= 1 && ZV(n) > -ZB && ZV(n) < ZB)
+__CPROVER_assigns(*self)
+__CPROVER_ensures(b_ok(*self) && (is_inf ? (ZV(n) > 0 ? b_pinf(*self) : b_minf(*self)) : b_is_fin(*self, ZV(n))));
+void h_b_ctor_flag(void){ IN(Z, n); GHOST(unsigned char, f); B r; _ZN4ikos5boundINS_8z_numberEEC2EbS1_(&r, f, &n); REACH; }
+
+/* ---------------------------------------------------------------- interval: constructors and queries */
+//@check id=i_ctor2 fn=_ZN4ikos8intervalINS_8z_numberEEC2ENS_5boundIS1_EES4_ props=C08,C04
+void _ZN4ikos8intervalINS_8z_numberEEC2ENS_5boundIS1_EES4_(I *self, B *lb, B *ub)
+__CPROVER_requires(FRESH(i_ctor2, self, sizeof(I)) && FRESH(i_ctor2, lb, sizeof(B)) && FRESH(i_ctor2, ub, sizeof(B)) && b_ok(*lb) && b_ok(*ub) && TOP(i_ctor2, GRANGE))
+/* a caller never builds [+oo, _] or [_, -oo] (it would denote no integer yet not be bottom) */
+__CPROVER_requires(!b_pinf(*lb) && !b_minf(*ub))
+__CPROVER_assigns(*self)
+__CPROVER_ensures(i_ok(*self))
+__CPROVER_ensures(b_le(*lb, *ub) ? i_is(*self, *lb, *ub) : i_bot(*self))
+__CPROVER_ensures(TOP(i_ctor2, i_has(*self, g_x) == (b_le_num(*lb, g_x) && num_le_b(g_x, *ub))));
+void h_i_ctor2(void){ IN(B, lo); IN(B, hi); HGHOSTS; I r; _ZN4ikos8intervalINS_8z_numberEEC2ENS_5boundIS1_EES4_(&r, &lo, &hi); REACH; }
+//@check id=i_ctor_z fn=_ZN4ikos8intervalINS_8z_numberEEC2ES1_ props=C08
+void _ZN4ikos8intervalINS_8z_numberEEC2ES1_(I *self, Z *n)
+__CPROVER_requires(FRESH(i_ctor_z, self, sizeof(I)) && FRESH(i_ctor_z, n, sizeof(Z)) && ZV(n) > -ZB && ZV(n) < ZB && TOP(i_ctor_z, GRANGE))
+__CPROVER_assigns(*self)
+__CPROVER_ensures(i_ok(*self) && i_is(*self, mkfin(ZV(n)), mkfin(ZV(n))))
+__CPROVER_ensures(TOP(i_ctor_z, i_has(*self, g_x) == (g_x == ZV(n))));
+void h_i_ctor_z(void){ IN(Z, n); HGHOSTS; I r; _ZN4ikos8intervalINS_8z_numberEEC2ES1_(&r, &n); REACH; }
+//@check id=i_ctor_default fn=_ZN4ikos8intervalINS_8z_numberEEC2Ev props=C08,C04
+void _ZN4ikos8intervalINS_8z_numberEEC2Ev(I *self)
+__CPROVER_requires(FRESH(i_ctor_default, self, sizeof(I)))
+__CPROVER_assigns(*self)
+__CPROVER_ensures(i_ok(*self) && i_bot(*self));
+void h_i_ctor_default(void){ I r; _ZN4ikos8intervalINS_8z_numberEEC2Ev(&r); REACH; }
+/* membership test = concretisation predicate: ties the oracle to the class's own reading */
+//@check id=i_contains fn=_ZNK4ikos8intervalINS_8z_numberEEixES1_ props=C08,C04
+unsigned char _ZNK4ikos8intervalINS_8z_numberEEixES1_(I *self, Z *n)
+__CPROVER_requires(FRESH(i_contains, self, sizeof(I)) && FRESH(i_contains, n, sizeof(Z)) && i_ok(*self) && ZV(n) > -ZB && ZV(n) < ZB)
+__CPROVER_assigns()
+__CPROVER_ensures((__CPROVER_return_value != 0) == i_has(*self, ZV(n)));
+void h_i_contains(void){ IN(I, a); IN(Z, n); _ZNK4ikos8intervalINS_8z_numberEEixES1_(&a, &n); REACH; }
+/* half lines: {y | y <= some x in self} and {y | y >= some x in self} */
+#define IUN(tag, fn, SOUND) \
+void fn(I *ret, I *self) \
+__CPROVER_requires(FRESH(tag, ret, sizeof(I)) && FRESH(tag, self, sizeof(I)) && i_ok(*self) && GRANGE) \
+__CPROVER_assigns(*ret) \
+__CPROVER_ensures(i_ok(*ret)) \
+__CPROVER_ensures(SOUND); \
+void h_##tag(void){ IN(I, a); HGHOSTS; I r; fn(&r, &a); REACH; }
+//@check id=i_lower_half fn=_ZNK4ikos8intervalINS_8z_numberEE15lower_half_lineEv props=C08
+IUN(i_lower_half, _ZNK4ikos8intervalINS_8z_numberEE15lower_half_lineEv, (i_has(*self, g_x) && g_y <= g_x) ==> i_has(*ret, g_y))
+//@check id=i_upper_half fn=_ZNK4ikos8intervalINS_8z_numberEE15upper_half_lineEv props=C08
+IUN(i_upper_half, _ZNK4ikos8intervalINS_8z_numberEE15upper_half_lineEv, (i_has(*self, g_x) && g_y >= g_x) ==> i_has(*ret, g_y))
+
+/* ---------------------------------------------------------------- interval: division and remainders */
+#define D ZM_div
+static inline bool D1(i128 a, i128 g, i128 y){ return !(a <= g && y != 0) || (y > 0 ? D(a, y) <= D(g, y) : D(g, y) <= D(a, y)); }
+static inline bool D2(i128 x, i128 c, i128 g){ return !(c <= g && (c > 0 || g < 0)) || (x >= 0 ? D(x, g) <= D(x, c) : D(x, c) <= D(x, g)); }
+/* instances of lemmas/div_mono.smt2 at the corner points the (recursive) algorithm uses: the operands' bounds and +-1 */
+static inline bool DIV_LEMMAS(I s, I x, i128 gx, i128 gy){
+  i128 a = bval(s.f0), b = bval(s.f1), c = bval(x.f0), d = bval(x.f1);
+  i128 P[5] = {a, 1, b, -1, gx};
+  bool ok = D1(a, gx, gy) && D1(1, gx, gy) && D1(gx, b, gy) && D1(gx, -1, gy);
+  for (int i = 0; i < 5; i++) ok = ok && D2(P[i], c, gy) && D2(P[i], 1, gy) && D2(P[i], gy, d) && D2(P[i], gy, -1);
+  i128 Q[4] = {c, 1, d, -1};
+  for (int j = 0; j < 4; j++) ok = ok && D1(a, gx, Q[j]) && D1(1, gx, Q[j]) && D1(gx, b, Q[j]) && D1(gx, -1, Q[j]);
+  return ok; }
+/* operator/ is recursive (zero-crossing operands are split); the recursive calls are assumed to satisfy this same
+ * contract (--enforce-contract-rec); termination of the recursion is not proved */
+//@check id=i_div fn=_ZNK4ikos8intervalINS_8z_numberEEdvERKS2_ props=C08 rec=1 timeout=1500 first_timeout=1500 backends=cvc5 cost=9 unwind=6
+IBIN(i_div, _ZNK4ikos8intervalINS_8z_numberEEdvERKS2_, ZB,
+     ANYBOT ==> i_bot(*ret),
+     (i_has(*self, g_x) && i_has(*x, g_y) && g_y != 0 && DIV_LEMMAS(*self, *x, g_x, g_y)) ==> i_has(*ret, D(g_x, g_y)))
+/* signed remainder (sign of the dividend, |r| < |divisor|) */
+//@check id=i_srem fn=_ZNK4ikos8intervalINS_8z_numberEE4SRemERKS2_ props=C08
+IBIN(i_srem, _ZNK4ikos8intervalINS_8z_numberEE4SRemERKS2_, ZB,
+     ANYBOT ==> i_bot(*ret),
+     (i_has(*self, g_x) && i_has(*x, g_y) && g_y != 0) ==> i_has(*ret, ZM_rem(g_x, g_y)))
+/* unsigned remainder: operands are the unsigned readings, at ANY bit width w, of the integers in the intervals:
+ * a non-negative integer reads as itself, a negative one as 2^w + v (ghost width g_w, 2^w > |v|) */
+i128 g_w;
+#define UREAD(v) ((v) >= 0 ? (v) : (v) + (((i128)1) << g_w))
+#define WRANGE (g_w >= 1 && g_w <= 64 && -g_x < (((i128)1) << g_w) && -g_y < (((i128)1) << g_w))
+//@check id=i_urem fn=_ZNK4ikos8intervalINS_8z_numberEE4URemERKS2_ props=C08
+void _ZNK4ikos8intervalINS_8z_numberEE4URemERKS2_(I *ret, I *self, I *x)
+__CPROVER_requires(FRESH(i_urem, ret, sizeof(I)) && IFRESH2(i_urem) && i_ok(*self) && i_ok(*x) && GRANGE && WRANGE)
+__CPROVER_assigns(*ret)
+__CPROVER_ensures(i_ok(*ret))
+__CPROVER_ensures(ANYBOT ==> i_bot(*ret))
+__CPROVER_ensures((i_has(*self, g_x) && i_has(*x, g_y) && g_y != 0) ==> i_has(*ret, ZM_rem(UREAD(g_x), UREAD(g_y))));
+void h_i_urem(void){ IN(I, a); IN(I, b); HGHOSTS; GHOSTG(i128, g_w); I r; _ZNK4ikos8intervalINS_8z_numberEE4URemERKS2_(&r, &a, &b); REACH; }
+//@check id=i_udiv fn=_ZNK4ikos8intervalINS_8z_numberEE4UDivERKS2_ props=C08
+void _ZNK4ikos8intervalINS_8z_numberEE4UDivERKS2_(I *ret, I *self, I *x)
+__CPROVER_requires(FRESH(i_udiv, ret, sizeof(I)) && IFRESH2(i_udiv) && i_ok(*self) && i_ok(*x) && GRANGE && WRANGE)
+__CPROVER_assigns(*ret)
+__CPROVER_ensures(i_ok(*ret))
+__CPROVER_ensures(ANYBOT ==> i_bot(*ret))
+__CPROVER_ensures((i_has(*self, g_x) && i_has(*x, g_y) && g_y != 0) ==> i_has(*ret, ZM_div(UREAD(g_x), UREAD(g_y))));
+void h_i_udiv(void){ IN(I, a); IN(I, b); HGHOSTS; GHOSTG(i128, g_w); I r; _ZNK4ikos8intervalINS_8z_numberEE4UDivERKS2_(&r, &a, &b); REACH; }
+
+/* ---------------------------------------------------------------- interval: bitwise (infinite-precision two's complement) */
+//@check id=i_and fn=_ZNK4ikos8intervalINS_8z_numberEE3AndERKS2_ props=C08
+IBIN(i_and, _ZNK4ikos8intervalINS_8z_numberEE3AndERKS2_, 2 * ZB, ANYBOT ==> i_bot(*ret), (i_has(*self, g_x) && i_has(*x, g_y)) ==> i_has(*ret, g_x & g_y))
+//@check id=i_or fn=_ZNK4ikos8intervalINS_8z_numberEE2OrERKS2_ props=C08
+IBIN(i_or, _ZNK4ikos8intervalINS_8z_numberEE2OrERKS2_, 2 * ZB, ANYBOT ==> i_bot(*ret), (i_has(*self, g_x) && i_has(*x, g_y)) ==> i_has(*ret, g_x | g_y))
+//@check id=i_xor fn=_ZNK4ikos8intervalINS_8z_numberEE3XorERKS2_ props=C08
+IBIN(i_xor, _ZNK4ikos8intervalINS_8z_numberEE3XorERKS2_, 2 * ZB, ANYBOT ==> i_bot(*ret), (i_has(*self, g_x) && i_has(*x, g_y)) ==> i_has(*ret, g_x ^ g_y))
+
+/* ---------------------------------------------------------------- interval: shifts */
+/* arithmetic shift right = floor(x / 2^k), k >= 0 */
+//@check id=i_ashr fn=_ZNK4ikos8intervalINS_8z_numberEE4AShrERKS2_ props=C08
+IBIN(i_ashr, _ZNK4ikos8intervalINS_8z_numberEE4AShrERKS2_, ZB, ANYBOT ==> i_bot(*ret), (i_has(*self, g_x) && i_has(*x, g_y) && g_y >= 0) ==> i_has(*ret, fshr128(g_x, g_y)))
+/* logical shift right: a non-negative value shifts as in mathematics; a negative value stands for its unsigned
+ * reading at some unknown width, which can be anything large: the result must then be top */
+//@check id=i_lshr fn=_ZNK4ikos8intervalINS_8z_numberEE4LShrERKS2_ props=C08
+IBIN(i_lshr, _ZNK4ikos8intervalINS_8z_numberEE4LShrERKS2_, ZB, ANYBOT ==> i_bot(*ret),
+     (i_has(*self, g_x) && i_has(*x, g_y) && g_y >= 0) ==> (g_x >= 0 ? i_has(*ret, fshr128(g_x, g_y)) : i_top(*ret)))
+/* shift left = x * 2^k.  The code multiplies by a factor built by a loop of k doublings (k <= 128).  Run per shift
+ * amount K (the loop then unwinds K times and the factor is a constant; multiplication bit-precise): quick K in a
+ * sample, thorough every K that keeps the model in range (ZBITS + K < 100); larger K are not covered */
+#ifndef SHK
+#define SHK 1
+#endif
+//@check id=i_shl fn=_ZNK4ikos8intervalINS_8z_numberEE3ShlERKS2_ props=C08 defs=ZM_PRECISE vary=SHK:0,1,2,7,31,58 vary_thorough=SHK:0-58 unwind=61 timeout=600
+void _ZNK4ikos8intervalINS_8z_numberEE3ShlERKS2_(I *ret, I *self, I *x)
+__CPROVER_requires(FRESH(i_shl, ret, sizeof(I)) && IFRESH2(i_shl) && i_ok(*self) && i_ok(*x) && TOP(i_shl, GRANGE))
+#ifdef CHECK_i_shl
+__CPROVER_requires(b_is_fin(LB(x), SHK) && b_is_fin(UB(x), SHK))
+#endif
+__CPROVER_assigns(*ret)
+__CPROVER_ensures(i_okz(*ret, ZLIM))
+__CPROVER_ensures(ANYBOT ==> i_bot(*ret))
+__CPROVER_ensures(TOP(i_shl, (i_has(*self, g_x) && i_has(*x, g_y) && g_y >= 0 && g_y < 59) ==> i_has(*ret, g_x * (((i128)1) << g_y))));
+void h_i_shl(void){ IN(I, a); IN(I, b); HGHOSTS; I r; _ZNK4ikos8intervalINS_8z_numberEE3ShlERKS2_(&r, &a, &b); REACH; }
+/* a non-singleton or negative shift amount gives top */
+//@check id=i_shl_top fn=_ZNK4ikos8intervalINS_8z_numberEE3ShlERKS2_ tag=i_shl harness=h_i_shl_top props=C08 unwind=2
+void h_i_shl_top(void){ IN(I, a); IN(I, b); HGHOSTS; I r; __CPROVER_assume(!i_bot(b) && (!b_eq(b.f0, b.f1) || bval(b.f0) < 0)); _ZNK4ikos8intervalINS_8z_numberEE3ShlERKS2_(&r, &a, &b); __CPROVER_assert(i_bot(a) ? i_bot(r) : i_top(r), "Shl by a non-singleton or negative amount is top"); REACH; }
+
+/* ---------------------------------------------------------------- linear_interval_solver helpers */
+/* trim_interval(i, j): refine i with the disequation x != c when j is the singleton {c}: nothing but c is lost */
+//@check id=i_trim fn=_ZN4ikos27linear_interval_solver_impl13trim_intervalINS_8intervalINS_8z_numberEEEEET_RKS5_S7_ props=C08
+void _ZN4ikos27linear_interval_solver_impl13trim_intervalINS_8intervalINS_8z_numberEEEEET_RKS5_S7_(I *ret, I *self, I *x)
+__CPROVER_requires(FRESH(i_trim, ret, sizeof(I)) && IFRESH2(i_trim) && i_ok(*self) && i_ok(*x) && GRANGE)
+__CPROVER_assigns(*ret)
+__CPROVER_ensures(i_okz(*ret, 2 * ZB))
+__CPROVER_ensures((i_has(*self, g_x) && !(i_has(*x, g_x) && !i_has(*x, g_x + 1) && !i_has(*x, g_x - 1))) ==> i_has(*ret, g_x))
+__CPROVER_ensures(i_has(*ret, g_x) ==> i_has(*self, g_x));
+void h_i_trim(void){ IN(I, a); IN(I, b); HGHOSTS; I r; _ZN4ikos27linear_interval_solver_impl13trim_intervalINS_8intervalINS_8z_numberEEEEET_RKS5_S7_(&r, &a, &b); REACH; }
